@@ -22,8 +22,8 @@ def wf(prop, graph, items, buf, mx, kind="func", mode="dpor", oracles=(), events
     job = {"id": jid, "prop": prop, "scen": scen, "mode": mode, "budget": kw.pop("budget", budget(tier)), "oracles": list(oracles), "events_dep": events_dep, "force_all": -1}
     job.update(kw)
     # scenarios that can also be run natively (real runtime, real bash, un-instrumented scipipe)
-    if graph not in ("tasks", "slots", "gjoin", "gjoin2") and mode == "dpor" and not job.get("crash") and not job.get("race") and scen.get("extra") in (None, "", "recorder", "subdir", "emptyparam-setout") \
-            and not job.get("seed_dir") and job.get("omit_edge") is None and not job.get("omit_fromstr") and not job.get("drop_proc") and not job.get("force_order") and not job.get("fault"):
+    if graph not in ("tasks", "slots", "gjoin", "gjoin2") and mode == "dpor" and not job.get("crash") and not job.get("race") and scen.get("extra") in (None, "", "recorder", "subdir", "emptyparam-setout", "prepend") \
+            and not job.get("seed_dir") and job.get("omit_edge") is None and not job.get("omit_fromstr") and not job.get("drop_proc") and not job.get("force_order") and not job.get("fault") and not job.get("external"):
         # (failing runs are not compared natively: os.Exit does not kill the task's child processes,
         # which the model's process-group kill does)
         job["_native"] = True
@@ -233,6 +233,11 @@ def plan_c06(tier, seed):
     jobs.append(with_delay_fallback(wf("C06", "g2", 3, 1, 1, oracles=o, tier=tier, pre={"in0.txt.p": "p.out(in=in0.txt;)"}, id="C06-g2-i3-m1-pre0")))
     jobs.append(with_delay_fallback(wf("C06", "g2", 3, 1, 2, oracles=o, tier=tier, pre={"in1.txt.p": "p.out(in=in1.txt;)"}, id="C06-g2-i3-m2-pre1")))
     jobs.append(with_delay_fallback(wf("C06", "g2", 3, 2, 1, "cmd", oracles=o, tier=tier, pre={"in0.txt.p": "p.out(in=in0.txt;)", "in2.txt.p": "p.out(in=in2.txt;)"}, id="C06-g2-i3-m1-pre02-cmd")))
+    # tasks connected by a FIFO (real mkfifo / bash, see C17): 2 producer/consumer pairs on 3 slots -
+    # commands started and not yet returned never exceed the slots
+    for size in ((1,) if tier == "quick" else (1, 65537)):
+        jobs.append({"id": f"C06-stream-n2-s{size}-m3", "prop": "C06", "kind": "stream", "mode": "delay", "delay": 1, "budget": budget(tier, 40, 300), "oracles": [], "events_dep": False, "force_all": -1,
+                     "args": {"n": "2", "size": str(size), "max": "3", "only_slots": "1"}})
     if tier != "quick":
         for mx in (2, 3):
             for cores in multisets(mx, 3):
@@ -269,6 +274,11 @@ def plan_c07(tier, seed):
             if sum(cores) <= mx:
                 jobs.append(with_delay_fallback(wf("C07", "g13", 1, 1, mx, oracles=o, tier=tier, cores=cores, extra="barrier", events_dep=False, id=f"C07-g13-barrier-m{mx}-c{cs}")))
     jobs.append(with_delay_fallback(wf("C07", "g2", 2, 1, 2, oracles=o, tier=tier, extra="barrier", events_dep=False, id="C07-g2-barrier-2items-m2")))
+    # environment: the output of a queued task is created by somebody else at an arbitrary moment (every
+    # placement of that write): whatever the task then does, the slots must come back
+    for g, i, mx, cores, ext in ((("g2", 2, 1, None, "in1.txt.p"), ("g2", 2, 2, [2], "in1.txt.p")) if tier == "quick" else (("g2", 2, 1, None, "in1.txt.p"), ("g2", 3, 1, None, "in1.txt.p"), ("g2", 2, 2, [2], "in1.txt.p"), ("g3", 2, 1, None, "in1.txt.p"))):
+        kw = {"cores": cores} if cores else {}
+        jobs.append(with_delay_fallback(wf("C07", g, i, 1, mx, oracles=["nohang"], tier=tier, events_dep=False, external={ext: "made by somebody else"}, id=f"C07-{g}-i{i}-m{mx}-external-output" + ("-c2" if cores else ""), **kw)))
     # shell-command bodies (the slot is held around the exec seam)
     for mx, cores in ((2, [1, 2]), (2, [2, 2]), (3, [2, 2]), (2, [1, 1])):
         jobs.append(with_delay_fallback(wf("C07", "g13", 1, 1, mx, "cmd", oracles=o, tier=tier, cores=cores, events_dep=False, id=f"C07-g13-free-m{mx}-c{''.join(map(str, cores))}-cmd")))
@@ -281,7 +291,7 @@ def plan_c07(tier, seed):
         for g, cores in (("g2", [mx + 1]), ("g11", [1, mx + 1]), ("g11", [mx + 1, 1]), ("g10b", [1, 1, mx + 1]), ("g3", [1, mx + 1])):
             jobs.append(wf("C07", g, 1, 1, mx, oracles=["nohang", "c07-oversize"], tier=tier, cores=cores, events_dep=False, id=f"C07-oversize-{g}-m{mx}-c{''.join(map(str, cores))}"))
     return {"level": "model_checking", "stages": [lambda ctx, prev: jobs],
-            "rule": "all multisets of CoresPerTask over k ready tasks x every interleaving of the token-by-token acquisition (DPOR closed): no deadlock state; barrier variants: k tasks with sum(cores) <= max rendezvous inside their bodies, so a library that serialises them deadlocks; oversize CoresPerTask: exit != 0 and no task of that process starts, in every schedule",
+            "rule": "all multisets of CoresPerTask over k ready tasks x every interleaving of the token-by-token acquisition (DPOR closed): no deadlock state; barrier variants: k tasks with sum(cores) <= max rendezvous inside their bodies, so a library that serialises them deadlocks; oversize CoresPerTask: exit != 0 and no task of that process starts, in every schedule; environment deviation: the output of a queued task is created by an outside actor at every possible moment -> still no deadlock state",
             "assumptions": BASE_ASSUMPTIONS}
 
 
@@ -572,11 +582,11 @@ def plan_c09(tier, seed):
                     for kind in ("cmd", "func"):
                         add(g, i, 1, m, kind, p, mt, fk)
     # tasks that cannot be formed
-    for extra in ("emptyparam", "badpath", "missingtag"):
+    for extra in ("emptyparam", "badpath", "missingtag", "missingtag-setout", "missingparam-setout"):
         for kind in ("cmd", "func"):
             jobs.append(wf("C09", "g8", 2, 1, 2, kind, oracles=["nohang", "c09-unformed"], tier=tier, events_dep=False, extra=extra, id=f"C09-g8-{extra}-{kind}"))
     return {"level": "fault_enumeration", "stages": [lambda ctx, prev: jobs],
-            "rule": "every choice of failing task x failure kind {exit before / mid / after writing, killed, declared output missing} + tasks that cannot be formed {empty parameter value, invalid output path, missing tag}, each under every Mazurkiewicz trace of the concurrently running rest (DPOR closed, delay bound 2 otherwise); non-trivial = distinct (fault case, terminal outcome) pairs in which the fault changed the outcome",
+            "rule": "every choice of failing task x failure kind {exit before / mid / after writing, killed, declared output missing} + tasks that cannot be formed {empty parameter value, invalid output path, missing tag in the command, missing tag / unknown parameter in the output-path pattern}, each under every Mazurkiewicz trace of the concurrently running rest (DPOR closed, delay bound 2 otherwise); non-trivial = distinct (fault case, terminal outcome) pairs in which the fault changed the outcome",
             "assumptions": BASE_ASSUMPTIONS + ["failures are injected at the exec seam (command result) or raised by the Go function through scipipe.Failf"]}
 
 
@@ -601,6 +611,10 @@ def crash_explore_jobs(prop, tier, oracles, snap_root=None):
     add("g8", 1, 1, "cmd")
     add("g14a", 1, 1, "func")
     add("g3", 1, 1, "cmd", extra="dirout")   # a directory as declared output: mkdir {o:out} && files inside
+    # p's output declared with an absolute path (its temp path differs from its final path). Only g2: a
+    # CONSUMER of an absolute path hashes that path into its temp-dir name, and recoveries run in a
+    # relocated copy of the crash state (another scratch directory), where that name would differ
+    add("g2", 1, 1, "cmd", extra="absout", depth2=False)
     # two tasks in flight
     add("g2", 2, 2, "cmd", disk_dep=False, mode="delay", delay=2 if not q else 1, depth2=not q)
     if not q or prop == "C01":
@@ -722,7 +736,7 @@ def plan_c02(tier, seed):
     o = ["nohang", "clean", "c02", "c04"]
     def stage1(ctx, prev):
         jobs = []
-        combos = [("g2", 2, 2, "cmd"), ("g3", 1, 1, "cmd"), ("g3", 2, 1, "func"), ("g7", 1, 2, "cmd"), ("g8", 1, 1, "cmd"), ("g6b", 2, 1, "func"), ("g3", 1, 1, "cmd", "absout"), ("g2", 1, 1, "cmd", "subdir"), ("g7b", 1, 2, "cmd")]
+        combos = [("g2", 2, 2, "cmd"), ("g3", 1, 1, "cmd"), ("g3", 2, 1, "func"), ("g7", 1, 2, "cmd"), ("g8", 1, 1, "cmd"), ("g6b", 2, 1, "func"), ("g3", 1, 1, "cmd", "absout"), ("g2", 1, 1, "cmd", "subdir"), ("g7b", 1, 2, "cmd"), ("g8d", 1, 1, "cmd")]
         if tier != "quick":
             combos += [("g3", 2, 2, "cmd"), ("g6", 1, 2, "cmd"), ("g7", 2, 2, "func"), ("g4", 1, 2, "cmd"), ("g8", 2, 2, "func")]
         for combo in combos:
@@ -787,7 +801,7 @@ def plan_c02(tier, seed):
             nj["_fallback_delay"] = 2
             jobs.append(nj)
         return jobs
-    mo = maporder_stage("C02", o, tier, graphs=("g7", "g7b"), per_job=True)
+    mo = maporder_stage("C02", o, tier, graphs=("g7", "g7b", "g8d"), per_job=True)
     def stage4(ctx, prev):
         # the skip decision walks the task's out-IPs in map order: every other order, for histories of multi-output tasks
         return mo(ctx, [r for r in prev if r["job"].get("pre") and r["job"].get("pre_audit") and "-ref-" in r["job"]["id"]])
